@@ -136,9 +136,14 @@ class PoyntingFluxDetector(Detector):
         )
         if can_determine_axis:
             if self.keep_all_components:
+                # Each face-area array is only broadcastable to the slice shape (its normal axis has
+                # size one), so expand to the full slice shape before stacking the three axes.
                 weights = jnp.stack(
                     [
-                        _resolve_face_area_weights(self._config, self.grid_slice_tuple, axis, self.dtype)
+                        jnp.broadcast_to(
+                            _resolve_face_area_weights(self._config, self.grid_slice_tuple, axis, self.dtype),
+                            self.grid_shape,
+                        )
                         for axis in range(3)
                     ]
                 )
